@@ -58,6 +58,9 @@ EmptyEp(nch) ==
     expDel |-> <<>>,          \* deliveries the model expects the hooks to report: <<[ch, len]>>
     setupRx |-> FALSE,        \* a set-up chunk was received while Connected (until the next snap)
     snapNext |-> 0, snapCum |-> 0, snapTag |-> 0, hasSnap |-> FALSE,
+    closedCh |-> {},          \* channels whose Close this side has announced: their data is discarded
+    closingCh |-> {},         \* channels this side is closing (close call started): whether a message in flight is
+                              \* still delivered depends on a race, so they are left out of the EXT comparison
     slackQ |-> 0, slackU |-> 0,   \* differences to the logged queue sizes already reported
     tag    |-> 0 ]            \* own initiate tag (index), 0 = not announced yet
 \* Submitted messages are not copied: `subidx` (given by the reset event) lists, per side and
@@ -110,7 +113,7 @@ Submit ==
 
 RelOrd(c) == chans[c].ord /\ chans[c].rel
 SeqMax(q) == LET RECURSIVE F(_)
-                 F(k) == IF k = 0 THEN 0 ELSE (IF q[k] > F(k - 1) THEN q[k] ELSE F(k - 1))
+                 F(k) == IF k = 0 THEN 0 ELSE LET m == F(k - 1) IN (IF q[k] > m THEN q[k] ELSE m)
              IN F(Len(q))
 InSeq(x, q) == \E k \in 1..Len(q) : q[k] = x
 
@@ -142,10 +145,12 @@ RecvMsg ==
                    [side |-> s, ch |-> c, len |-> Ev.len])
          b5 == Chk(b4, app[s].opens[c] >= 1, "C12", "OpenBeforeMessage", [side |-> s, ch |-> c])
      IN /\ bad' = b5
+        \* beyond the statement: nothing is delivered on a channel after its Close was announced
+        /\ ext' = ChkX(ext, app[s].closes[c] = 0, "NoMessageAfterClose", [side |-> s, ch |-> c, len |-> Ev.len])
         /\ app' = IF pick = 0 THEN app
                   ELSE IF pick = np + 1 /\ extra = <<>> THEN [app EXCEPT ![s].np[c] = pick]
                   ELSE [app EXCEPT ![s].extra[c] = Append(@, pick)]
-  /\ UNCHANGED <<sc, chans, subidx, ep, quiet, ext>> /\ Adv
+  /\ UNCHANGED <<sc, chans, subidx, ep, quiet>> /\ Adv
 
 RecvOpen ==
   /\ Ev.e = "recv" /\ Ev.kind = "open"
@@ -215,23 +220,26 @@ GapSetOf(cum, gaps) == UNION {{cum + k : k \in gaps[j][1]..gaps[j][2]} : j \in 1
 StreamSet(st) == {[ch |-> st[j][1], ssn |-> st[j][2]] : j \in {k \in 1..Len(st) : st[k][1] # 0}}
 
 OutToDel(out) == [k \in 1..Len(out) |-> [ch |-> out[k].ch, len |-> MsgLen(out[k].msg)]]
+RECURSIVE Without(_, _)
+Without(q, cs) == IF q = <<>> THEN <<>>
+                  ELSE IF Head(q).ch \in cs THEN Without(Tail(q), cs) ELSE <<Head(q)>> \o Without(Tail(q), cs)
 
 Rx ==
   /\ Ev.e = "rx"
   /\ LET s == Ev.s  e == ep[s]  t == Ev.t IN
      /\ (IF t = 0 THEN  \* DATA
-           LET f == [ch |-> Ev.ch, ssn |-> Ev.ssn, u |-> Ev.u, b |-> Ev.b, e |-> Ev.en, m |-> 0, i |-> 0,
+           LET f == [ch |-> IF Ev.ch \in e.closedCh THEN 0 ELSE Ev.ch, ssn |-> Ev.ssn, u |-> Ev.u, b |-> Ev.b, e |-> Ev.en, m |-> 0, i |-> 0,
                      len |-> Ev.ulen, d |-> (Ev.ppid = 50)]
                r == RxData(e.rx, Ev.tsn, f, OrdF)
            IN ep' = [ep EXCEPT ![s].rx = [r EXCEPT !.out = <<>>],
-                               ![s].expDel = @ \o OutToDel(r.out)]
+                               ![s].expDel = @ \o Without(OutToDel(r.out), e.closingCh)]
          ELSE IF t = 3 THEN  \* SACK
            ep' = [ep EXCEPT ![s].sq = ApplySack(@, Ev.cum, GapSetOf(Ev.cum, Ev.gaps)),
                             ![s].rwnd = Ev.rwnd, ![s].hasRwnd = TRUE, ![s].since = 0]
          ELSE IF t = 192 THEN  \* FORWARD-TSN: move the point, then deliver what became contiguous
            LET r == Drain(RxForward(e.rx, Ev.cum, StreamSet(Ev.streams)), OrdF)
            IN ep' = [ep EXCEPT ![s].rx = [r EXCEPT !.out = <<>>],
-                               ![s].expDel = @ \o OutToDel(r.out)]
+                               ![s].expDel = @ \o Without(OutToDel(r.out), e.closingCh)]
          ELSE IF t \in {1, 2} THEN  \* INIT / INIT-ACK: the peer's initial TSN and window
            ep' = [ep EXCEPT ![s].rx = IF e.rx.has THEN @ ELSE [@ EXCEPT !.cum = Ev.tsn - 1, !.has = TRUE],
                             ![s].rwnd = IF e.hasRwnd THEN @ ELSE Ev.rwnd,
@@ -246,9 +254,9 @@ Rx ==
 DeliverHook ==
   /\ Ev.e = "deliver"
   /\ LET s == Ev.s  q == ep[s].expDel
-         ok == q # <<>> /\ q[1].ch = Ev.ch /\ q[1].len = Ev.len
+         ok == Ev.ch \in ep[s].closingCh \/ (q # <<>> /\ q[1].ch = Ev.ch /\ q[1].len = Ev.len)
      IN /\ ext' = ChkX(ext, ok, "DeliverMatchesModel", [side |-> s, ch |-> Ev.ch, len |-> Ev.len])
-        /\ ep' = [ep EXCEPT ![s].expDel = IF ok THEN Tail(q) ELSE <<>>]
+        /\ ep' = [ep EXCEPT ![s].expDel = IF Ev.ch \in ep[s].closingCh THEN q ELSE IF ok THEN Tail(q) ELSE <<>>]
   /\ UNCHANGED <<sc, chans, subidx, app, quiet, bad>> /\ Adv
 
 \* what one SACK did to the implementation's retransmission queue (hook sackfx, logged right after the
@@ -278,6 +286,13 @@ AdvFx ==
      IN /\ bad' = Chk(bad, wrong = {}, "C01", "AbandonOnlyPartiallyReliable", [side |-> s, tsns |-> {x.tsn : x \in wrong}])
         /\ ep' = [ep EXCEPT ![s].sq = e.sq \ gone]
   /\ UNCHANGED <<sc, chans, subidx, app, quiet, ext>> /\ Adv
+
+ChanHook ==
+  /\ Ev.e = "chan"
+  /\ ep' = IF Ev.what = "close" /\ Ev.ch # 0 THEN [ep EXCEPT ![Ev.s].closedCh = @ \cup {Ev.ch}]
+           ELSE IF Ev.what = "closing" /\ Ev.ch # 0 THEN [ep EXCEPT ![Ev.s].closingCh = @ \cup {Ev.ch}]
+           ELSE ep
+  /\ UNCHANGED <<sc, chans, subidx, app, quiet, bad, ext>> /\ Adv
 
 T3 ==
   /\ Ev.e = "timer"
@@ -371,13 +386,13 @@ End ==
 
 Other ==
   /\ Ev.e \notin {"reset", "submit", "recv", "newchan", "tx", "rx", "deliver", "timer", "snap", "net", "mark", "end",
-                 "sackfx", "advfx"}
+                 "sackfx", "advfx", "chan"}
   /\ UNCHANGED <<sc, chans, subidx, ep, app, quiet, bad, ext>> /\ Adv
 
 Next ==
   /\ l <= N
   /\ \/ Reset \/ Submit \/ RecvMsg \/ RecvOpen \/ RecvClose \/ NewChan \/ Tx \/ Rx \/ DeliverHook
-     \/ SackFx \/ AdvFx \/ T3 \/ Snap \/ Net \/ Mark \/ End \/ Other
+     \/ SackFx \/ AdvFx \/ ChanHook \/ T3 \/ Snap \/ Net \/ Mark \/ End \/ Other
 
 Spec == Init /\ [][Next]_vars
 
